@@ -113,7 +113,7 @@ def loadModule (F : Finder) (enter : Str → St → Res) (name : Str) (s : St) :
 def enterSub (enter : Str → St → Res) (name : Str) (s : St) : Res :=
   match enter name { s with fwdSeen := false } with
   | .ok s' => .ok { s' with fwdSeen := s.fwdSeen }
-  | e => e
+  | .err e s' => .err e s'
 
 /-- `Scope::do_use`: the module itself, or — as is, when it has forwarded members — a fresh
 merged copy holding the current values -/
@@ -206,7 +206,7 @@ def execItems (q : LoadQuirks) (F : Finder) (enter : Str → St → Res) (self :
   | it :: rest, j, b, s =>
     match execItem q F enter self j b s it with
     | (.ok s', b') => execItems q F enter self rest (j + 1) b' s'
-    | (e, _) => e
+    | (.err e s', _) => .err e s'
 
 /-- what of a file is executed: a `.css` file is parsed as CSS (`handle_css`), its rules are
 copied and it loads nothing -/
@@ -223,7 +223,7 @@ def execBody (q : LoadQuirks) (F : Finder) : Nat → Str → St → Res
 def compile (q : LoadQuirks) (F : Finder) (fuel : Nat) (root : Str) : Res :=
   match execBody q F fuel root { loading := [root] } with
   | .ok s => .ok (unlock root s)
-  | e => e
+  | .err e s => .err e s
 
 /-! ### the concrete finder -/
 
